@@ -380,3 +380,65 @@ add('C01-peeksize-counts-reorder-buffer', 'mw2_01', 2, 'C01',
     change="kcp.go PeekSize: rcv_queue.Len() < frg+1  ->  rcv_queue.Len()+rcv_buf.Len() < frg+1",
     needs="message mode with fragmented messages (raw KCP endpoint), a fragment lost, later segments parked behind the hole, and the application polling Recv before the retransmission arrives",
     checks={'C01 quick': "caught: 139 runs, C01/core-stream/message-boundary 'message 8 has 219 bytes at offset 903, the peer's message 8 had 417' (raw-core scenario under C01)"})
+
+add('C07-decode-cache-parity-slots-not-cleared', 'mw2_07', 1, 'C07',
+    "the decoder's cache reset clears only the data slots: parity slots keep slices of the previously assembled group (buffers already recycled), and Reed-Solomon uses a stale one as if present",
+    change="fec.go decode: 'for k := range dec.decodeCache' -> 'for k := range dec.dataShards' in the cache reset",
+    needs="group A repaired with parity index i; a later group B losing parity i and a data packet; B reaching quorum through a higher parity index",
+    also=['C05'],
+    checks={'C07 quick': "caught: 560 runs, C07/fec-soundness/recovered-bad-size 'decoder returned a packet whose size field is 56283 - not an original data packet'",
+            'C05 quick': 'caught: 184 runs, C05/survive/crash panic slice bounds out of range @ (*fecDecoder).decode'})
+
+add('C07-parity-truncated-on-the-wire', 'mw2_07', 2, 'C07',
+    "postProcess sizes the transmit copy of a parity packet with len(buf) - the data packet that completed the group - instead of len(ecc[k])",
+    change="sess.go postProcess (parity copy loop): defaultBufferPool.Get()[:len(ecc[k])] -> [:len(buf)]",
+    needs="a group whose last data packet is shorter than its longest one, plus a loss in that group that parity has to repair",
+    also=['C09'],
+    checks={'C07 quick': 'caught: 5 runs, C07/C01-stream/prefix-mismatch (without a cipher the receiver zero-pads the truncated parity and reconstructs garbage)',
+            'C09 quick': "caught: 567 runs, C09/wire/parity-length 'parity body 41 bytes, longest data payload of the group 226' and C09/wire/unparseable (integrity: crc)"})
+
+add('C17-worker-pushes-without-sifting', 'mw2_17', 2, 'C17',
+    "the worker calls tasks.Push(task) - the heap.Interface append hook - instead of heap.Push: the slice is no longer a min-heap, the timer follows tasks[0]",
+    change="timedsched.go sched: heap.Push(&tasks, task) -> tasks.Push(task)",
+    needs="a task reaching a worker whose heap already holds a task with a later deadline (decreasing or non-monotone deadlines on one worker)",
+    checks={'C17 quick': 'caught: 1046 runs, C17/promptly/task-ran-late and task-not-run'})
+
+add('C18-timer-rearmed-for-the-new-task', 'mw2_18', 1, 'C18',
+    "after pushing a new task the worker re-arms its timer for THAT task's deadline, not the earliest one on its heap: a short-interval session sharing a worker with a long-interval one flushes late and its peer retransmits on a clean path",
+    change="timedsched.go sched: timer.Reset(tasks[0].ts.Sub(now)) -> timer.Reset(task.ts.Sub(now))",
+    needs="two live sessions with clearly different flush intervals on the same scheduler worker, the short-interval one only receiving",
+    also=['C17'],
+    checks={'C18 quick': "caught: 6 runs, C18/clean-path/retransmission 'sn 2 transmitted 2 times on a clean path'",
+            'C17 quick': 'caught: 843 runs, C17/promptly/task-ran-late and task-not-run'})
+
+add('C18-minrto-not-restored-on-leaving-nodelay', 'mw2_18', 2, 'C18',
+    "NoDelay no longer restores the 100 ms minimum when switching back to normal mode: the RTO stays clamped at 30 ms",
+    change="kcp.go NoDelay: the 'else { kcp.rx_minrto = IKCP_RTO_MIN }' branch dropped (ported to the tree after fix 25a5852, which touches the neighbouring lines; the diff as the agent wrote it is kept beside it)",
+    needs="NoDelay(1,...) then NoDelay(0,...) on the same connection, then low-RTT samples pulling the RTO below 100 ms",
+    checks={'C18 quick': "caught: 19 runs, C18/rto-bound/rto-out-of-bounds 'GetRTO()=92 outside [100,60000]' (mid-transfer SetNoDelay in scenario sess-mtu, run for C18; added in response; missed before)"},
+    notes="First evaluation: missed - SetNoDelay was applied once, before traffic. Applying it in mid-transfer immediately exposed a genuine defect on the UNCHANGED tree (R14: GetRTO below the new minimum until the next sample), which was repaired in /repo (25a5852) before this change could be evaluated on its own.")
+
+add('C14-error-walk-over-live-map-snapshot', 'mw2_14', 2, 'C14',
+    "Listener.notifyReadError copies the map REFERENCE under the read lock, unlocks, then ranges over it: the walk runs over the live map without a lock",
+    change="sess.go notifyReadError: sessions := l.sessions under RLock, RUnlock, then range sessions",
+    needs="the listener's socket read failing while accepted sessions exist, and a session being closed during the walk",
+    checks={'C14 quick': 'caught: 28 runs, C14/race/(*Listener).closeSession|(*Listener).monitor.(*Listener).notifyReadError.func1'})
+
+add('C19-oob-counted-as-data-shard', 'mw2_19', 1, 'C19',
+    "postProcess runs the FEC encoder's encode() for out-of-band packets too (then re-labels them): the OOB consumes a FEC id and a group slot, parity is computed over it",
+    change="sess.go postProcess: if !oob { encode } else { encodeOOB }  ->  encode(); if oob { encodeOOB() }",
+    needs="data, then SendOOB inside the same FEC group, then more data, then loss of a packet of that group (or a segment-shaped OOB payload plus the parity arriving)",
+    also=['C07'],
+    checks={'C19 quick': "caught: 837 runs, C19/C09-wire/fec-id-sequence 'FEC id 5, expected 2'",
+            'C07 quick': 'missed (correct for its strata: no OOB traffic there)'})
+
+# round-2 duplicates
+for _id, _d in {
+    'C17-prepend-notification-unbuffered': ['mw2_17 mutant1 (C17 agent, round 2)'],
+    'C04-reconstructed-packet-treated-as-regular': ['mw2_03 mutant1 (C03 agent, round 2)'],
+    'C12-probe-wait-not-reset': ['mw2_03 mutant2 (C03 agent, round 2)'],
+    'C19-foreign-conversation-oob-resets-session': ['mw2_19 mutant2 (C19 agent, round 2)'],
+}.items():
+    for _e in E:
+        if _e['id'] == _id:
+            _e['duplicate_reports'] += _d
